@@ -21,10 +21,7 @@ ASSUMPTIONS = [
     'coordinate" (model) and cross-checked against scipy.ndimage.map_coordinates(mode=mirror)',
     'fractional coordinates outside [0, len-1]: the statement names no value; the code applies the border rule to '
     'the nearest sample position and is compared with the model only',
-    'tolerance 1e-9*max(1,max|f|); where the causal initialisation of the prefilter is cut at e^-16 '
-    '(log_tolerance=-16 in spline_filter1d, lines longer than 10/13/4 samples for orders 2/3/4) the samples are '
-    'reproduced to 2e-6*max|f| only and that tolerance is used for the property comparisons (the model comparison '
-    'stays at 1e-9)',
+    'tolerance 1e-9*max(1,max|f|) for every comparison (property, model, scipy cross-check)',
     'mode=constant is only accepted with cval=0 by the wrapper; corner mapping is checked on axes with n_out >= 2 '
     '(an axis zoomed to length 1 maps its only sample to sample 0)',
 ]
@@ -32,7 +29,6 @@ TRUSTED = ['numpy (array construction, layout views)', 'scipy.ndimage.map_coordi
 MODES = ['nearest', 'wrap', 'reflect', 'mirror', 'constant', 'ignore']
 MODE_CODE = {'nearest': 0, 'wrap': 1, 'reflect': 2, 'mirror': 3, 'constant': 4, 'ignore': 5}
 TOL = 1e-9
-TOL_TRUNC = 2e-6
 
 
 def _arr(case):
@@ -57,7 +53,7 @@ def _cut_truncated(order, n):
     poles = {2: [math.sqrt(8.0) - 3.0], 3: [math.sqrt(3.0) - 2.0],
              4: [math.sqrt(664.0 - math.sqrt(438976.0)) + math.sqrt(304.0) - 19.0,
                  math.sqrt(664.0 + math.sqrt(438976.0)) - math.sqrt(304.0) - 19.0]}.get(order, [])
-    return n > 1 and any(math.ceil(-16.0 / math.log(abs(p))) < n for p in poles)
+    return n > 1 and any(math.ceil(math.log(1e-15) / math.log(abs(p))) < n for p in poles)
 
 
 # ------------------------------------------------------------------------------------------------
@@ -237,7 +233,7 @@ def evaluate(cases):
             spec, ok = _opt_floats(d['spec'])
             g = got.ravel(order='C')
             trunc = d.get('trunc') == '1'
-            ptol = (TOL_TRUNC if trunc else TOL) * sc
+            ptol = TOL * sc
             if g.size != model.size:
                 raise core.Infra(f'size mismatch model {model.size} impl {g.size}')
             bad = np.nonzero(ok & ~(np.abs(g - spec) <= ptol))[0] if g.size else []
@@ -264,7 +260,7 @@ def evaluate(cases):
                     mask &= m.reshape(shp)
                 if mask.any():
                     ref = ndi.map_coordinates(A, [m_ for m_ in mesh], order=c['order'], mode='mirror')
-                    stol = (TOL_TRUNC if any(_cut_truncated(c['order'], n) for n in A.shape) else TOL) * sc
+                    stol = TOL * sc
                     badm = mask & ~(np.abs(ref - got) <= stol)
                     if badm.any():
                         i = tuple(int(x[0]) for x in np.nonzero(badm))
@@ -295,7 +291,7 @@ def evaluate(cases):
                     tmp = np.moveaxis(np.zeros(A.shape), c['axis'], -1)
                     mdl = np.moveaxis(np.array(m_).reshape(tmp.shape), -1, c['axis']) if m_ else np.zeros(A.shape)
                     rep = np.moveaxis(np.array(r_).reshape(tmp.shape), -1, c['axis']) if r_ else np.zeros(A.shape)
-                ptol = (TOL_TRUNC if trunc else TOL) * sc
+                ptol = TOL * sc
                 if A.size and not (np.abs(rep - A) <= ptol).all():
                     i = tuple(int(x[0]) for x in np.nonzero(~(np.abs(rep - A) <= ptol)))
                     f.append(dict(kind='property', key=f'spline_filter:reproduce:order{c["order"]}',
@@ -320,7 +316,7 @@ def evaluate(cases):
                 f.append(dict(kind='property', key=f'{fn}:shape', detail=dict(got=list(got.shape), want=want)))
             elif got.size and A.size:
                 trunc = any(_cut_truncated(c['order'], n) for n in A.shape)
-                ptol = (TOL_TRUNC if trunc else TOL) * sc
+                ptol = TOL * sc
                 rank = 2 if fn == 'resize_rgb_to' else got.ndim
                 for corner in itertools.product(*[(0, -1)] * rank):
                     src = tuple((0 if (cc == 0 or m == 1) else n - 1) for cc, n, m in zip(corner, A.shape, got.shape))
